@@ -289,8 +289,9 @@ _reg("C14", c14.run, translator=("T1", "T4", "T5"),
                 "Input/Output annotations do; and an inferred graph is a fixed point of inference. That the real round "
                 "trips return a graph meeting the per-node conditions is checked by the oracle on sampled histories.",
      level_note="Lean kernel; hand-written models of to_dict/from_dict/write/read and of the h5py contract (create_dataset conversions, item[()], link names, iteration order), validated against the real library and real files on every run.")
-_reg("C15", c15.run, translator=("T1", "T3"),
-     theorems=["NirVerif.C15.modes", "NirVerif.C15.step_refines", "NirVerif.C15.refines", "NirVerif.C15.read_after_history"],
+_reg("C15", c15.run, translator=("T1", "T3", "T16"), module="NirVerif.Properties.C15Generated",
+     theorems=["NirVerif.C15.modes", "NirVerif.C15.step_refines", "NirVerif.C15.refines", "NirVerif.C15.read_after_history",
+               "NirVerif.C15.no_hidden_state_generated"],
      rule="Random histories (3-8, thorough 3-15 calls) over write(g_i)/read/read_version on one real path with graphs of "
           "different sizes, kinds and metadata, path given as str or pathlib.Path; after every call the fd table, the file "
           "hash across reads and the result of read are checked; finally rename and delete; plus BytesIO/temporary-file "
@@ -318,8 +319,9 @@ _reg("C16", c16.run,
                 "same verdict on every edge under any re-assignment of metadata (inert_check). Whole-file inertness is "
                 "checked by the oracle.",
      level_note="Lean kernel; hand-written models of to_dict/from_dict/write/read and of the h5py contract (create_dataset conversions, item[()], link names, iteration order), validated against the real library and real files on every run.")
-_reg("C17", c17.run,
-     theorems=["NirVerif.C17.pure", "NirVerif.C17.pure_history", "NirVerif.C17.read_deterministic"],
+_reg("C17", c17.run, translator=("T1", "T16"), module="NirVerif.Properties.C17Generated",
+     theorems=["NirVerif.C17.pure", "NirVerif.C17.pure_history", "NirVerif.C17.read_deterministic",
+               "NirVerif.C17.observers_generated", "NirVerif.C17.no_shared_state_generated"],
      rule="Graphs of the C01 domain under sequences of 1-6 observers (to_dict, write to BytesIO / path, type check, inputs, "
           "outputs), a quarter of them made to fail (unwritable, uncopyable, ragged or None metadata values; inconsistent "
           "types): deep snapshot (bytes of every array, ids of nodes and containers) before and after every call; pairs "
@@ -328,8 +330,11 @@ _reg("C17", c17.run,
                 "construction (stated as theorems so the obligation is explicit). PARTIAL by nature: the substance of this "
                 "property is the refinement check that the real observers behave like these pure functions - deep "
                 "snapshots of the real objects around every observer call, failing ones included - which only the "
-                "correspondence/oracle run provides.",
-     level_note="Lean kernel; hand-written models of to_dict/from_dict/write/read and of the h5py contract (create_dataset conversions, item[()], link names, iteration order), validated against the real library and real files on every run.")
+                "correspondence/oracle run provides. The syntactic half of that refinement is regenerated from the source on "
+                "every run (T16): no statement of any observer body stores through an object reachable from the observed "
+                "graph or hands it to code outside a table of readers, and nothing under nir/ keeps state between calls "
+                "(observers_generated, no_shared_state_generated).",
+     level_note="Lean kernel + T16 (effect analysis of the observer bodies, trusted as written); hand-written models of to_dict/from_dict/write/read and of the h5py contract (create_dataset conversions, item[()], link names, iteration order), validated against the real library and real files on every run.")
 _reg("C18", c18.run, translator=("T1", "T2"), module="NirVerif.Properties.C18Depth",
      theorems=["NirVerif.C18.whitelist_documented", "NirVerif.C18.closed", "NirVerif.C18.closed_nonstring",
                "NirVerif.C18.no_type", "NirVerif.C18.mandatory_table", "NirVerif.C18.construct_missing",
